@@ -398,6 +398,8 @@ def default_opaque(name):
     return False
 
 
+FN_TRAIT_CALLS = ("core::ops::function::Fn::call", "core::ops::function::FnMut::call_mut", "core::ops::function::FnOnce::call_once")
+
 BBOPS = {
     "BitAnd>::bitand": "and", "BitOr>::bitor": "or", "BitXor>::bitxor": "xor",
     "Sub>::sub": "sub", "Not>::not": "not",
@@ -987,6 +989,11 @@ class SymExec:
             if k == "switch":
                 d = self.operand(st, fr, t["discr"])
                 arms = t["arms"]
+                if self.is_bool(fr, t):
+                    # branch on the un-negated condition, so that `!c` and `c` are the same decision
+                    while d[0] == "un" and d[1] == "Not":
+                        d = d[2]
+                        arms = [[1 - v, b2] for v, b2 in arms]
                 if d[0] == "int":
                     tgt = t["otherwise"]
                     for v, b2 in arms:
@@ -1103,6 +1110,10 @@ class SymExec:
             return int(CMP[d[1]](st.decided[d[2]], d[3][1]))
         if d[0] == "bin" and d[1] in CMP and d[2][0] == "int" and d[3] in st.decided and isinstance(st.decided[d[3]], int):
             return int(CMP[d[1]](d[2][1], st.decided[d[3]]))
+        if d[0] == "bin" and d[1] in ("Eq", "Ne") and (d[2][0] == "int") != (d[3][0] == "int"):
+            x, k = (d[3], d[2][1]) if d[2][0] == "int" else (d[2], d[3][1])
+            if k in st.excluded.get(x, ()):
+                return int(d[1] == "Ne")
         r2 = self.eq_some_enum(d)
         if r2 is not None:
             x, k, is_eq = r2
@@ -1137,6 +1148,15 @@ class SymExec:
         return None
 
     def propagate(self, st, d, v):
+        if d[0] == "bin" and d[1] in ("Eq", "Ne") and isinstance(v, int) and (d[2][0] == "int") != (d[3][0] == "int"):
+            # x == k decided: remember the value (or its exclusion; with two variants the other one)
+            x, k = (d[3], d[2][1]) if d[2][0] == "int" else (d[2], d[3][1])
+            if (d[1] == "Eq") == bool(v):
+                st.decided.setdefault(x, k)
+            else:
+                st.excluded[x] = frozenset(st.excluded.get(x, frozenset()) | {k})
+                if self.dn.get(x) == 2 and k in (0, 1):
+                    st.decided.setdefault(x, 1 - k)
         r2 = self.eq_some_enum(d)
         if r2 is not None and isinstance(v, int):
             x, k, is_eq = r2
@@ -1203,9 +1223,24 @@ class SymExec:
         o = self.ops
         args = tuple(self.operand(st, fr, a) for a in t["args"])
         depth = len(st.frames) - 1
-        if "clos" in callee:
-            # direct call of a closure value (synthesised by cva/desugar.py)
-            cv = self.local_val(st, fr, callee["clos"])
+        direct = None
+        if "clos" not in callee and callee.get("fn") in FN_TRAIT_CALLS and len(args) == 2 and args[1][0] == "tuple":
+            # f(..) on a closure defined in the analysed code: a direct call of its body
+            cv = args[0]
+            if cv[0] in ("ptr", "ref"):
+                cv = self.deref(st, cv)
+            if cv[0] == "closure" and cv[1] in self.facts.bodies:
+                direct = cv
+                if args[0][0] != "ptr":
+                    # by-value callable: give the body something to point its environment at
+                    root = ("E", st.nfid)
+                    st.store[root] = cv
+                    args = (("ptr", root, (), True),) + tuple(args[1][1])
+                else:
+                    args = (args[0],) + tuple(args[1][1])
+        if "clos" in callee or direct is not None:
+            # direct call of a closure value (synthesised by cva/desugar.py, or `f(x)` on a local closure)
+            cv = direct if direct is not None else self.local_val(st, fr, callee["clos"])
             cb = self.facts.bodies.get(cv[1]) if cv[0] == "closure" else None
             if cb is not None and depth < self.max_depth + 6 and cb.argc == len(args):
                 nf = Frame(cb, st.nfid, fr.cgen, fr.tgen)
